@@ -26,6 +26,9 @@ def run(tier, seed, work, replay):
         cases.append({"world": "tokens", "ops": [a, b], "maxsched": 40 if tier == "quick" else 300})
     for a, b in itertools.combinations_with_replacement(BOOT_OPS, 2):
         cases.append({"world": "bootstrap", "ops": [a, b], "maxsched": 40 if tier == "quick" else 300})
+    for a in ("u2f_disable", "u2f_delete", "totp_disable", "totp_delete"):
+        for b in ("totp_auth", "u2f_auth", "totp_rename", "u2f_rename"):
+            cases.append({"world": "tokens", "ops": [a, b], "degraded": True})
     rng = random.Random(seed)
     ntri = 6 if tier == "quick" else 150
     for _ in range(ntri):
@@ -97,7 +100,7 @@ def run(tier, seed, work, replay):
         guards = [g for g in d["guards"] if g.startswith("G_C16_") or g == "G_C10_NoPanic"]
         sch = ev["schedule"]
         inter = any(sch[i] != sch[i - 1] and sch[i] in sch[:i - 1] for i in range(2, len(sch)))
-        sg = {"action": "Run", "guards": guards, "ops": sorted(set(ev["ops"])), "world": ev["world"], "interleaved": inter}
+        sg = {"action": ev["ev"], "guards": guards, "ops": sorted(set(ev["ops"])), "world": ev["world"], "interleaved": inter}
         if "G_C16_OneSpend" in guards:
             # which one-time value was honoured more than once
             sg["double_spent"] = sorted({op for op in ("totp_auth", "botp_use", "u2f_auth", "webauthn_auth")
